@@ -34,6 +34,9 @@ pub const HOSTILE_DELIMS: &[(&str, &str)] = &[
     ("//", "\n"),
     ("# ", "\n"),
     ("\t", "\t"),
+    // long delimiters (a partial match can be longer than any fixed-size window)
+    ("<!-- chiritori-tag <", "> chiritori-tag -->"),
+    ("@@@@@@@@@@@@@@@@@@", "%%%%%%%%%%%%%%%%%%%"),
 ];
 
 /// Code words for text outside tags. Filtered per spelling so that no non-blank character of a
